@@ -81,3 +81,14 @@ UNITS += [
          note="modular: ArenaList::_add_node replaced by its contract (unit c18.list.add_node)",
          trusted=["ArenaTree<JitAllocatorBlock>::insert replaced by an ASSUMED contract that records the call"]),
 ]
+
+ITER = "contracts/c09_iter.h"
+UNITS += [
+    Unit(name="c09.range_iterator.next_range", props=["C09"], tu=JA, roots=["asmjit::BitVectorRangeIterator<unsigned long, 0>::next_range"],
+         target="BitVectorRangeIterator_u64_0_next_range", contracts=ITER, quick_defines=QW, thorough_defines=TW, unwind=6, kind="bounded",
+         bound_note="bit vectors of 1 word (quick) / 2 words (thorough); every iterator state satisfying the invariant, every window end and hint",
+         note="inductive step over the calls of an iteration: invariant in, invariant out, returned range free"),
+    Unit(name="c09.range_iterator.init", props=["C09"], tu=JA, roots=["asmjit::BitVectorRangeIterator<unsigned long, 0>::init#u64_p,u64,u64,u64"],
+         target="BitVectorRangeIterator_u64_0_init__u64_p_u64_u64_u64", contracts=ITER, quick_defines=QW, thorough_defines=TW, unwind=6, kind="bounded",
+         bound_note="bit vectors of 1 word (quick) / 2 words (thorough)", note="establishes the iterator invariant"),
+]
